@@ -314,7 +314,7 @@ pub fn generate_c15(run_seed: u64, thorough: bool, faults: bool) -> ListDesc {
         m.heap.new_list(inner_init[k].clone());
     }
     let script_ok = |op: &Op| -> bool { !matches!(op, Op::InnerPush { .. } | Op::FromVec { .. } | Op::CloneH { .. } | Op::DropH { .. } | Op::ToVec { .. } | Op::Iter { .. } | Op::Debug { .. }) };
-    let rust_ok = |op: &Op| -> bool { !matches!(op, Op::Lit9 { .. } | Op::Join { .. } | Op::ForCount { .. } | Op::ForSum { .. } | Op::ForPush { .. } | Op::ForFind { .. }) };
+    let rust_ok = |op: &Op| -> bool { !matches!(op, Op::BranchLit { .. } | Op::Lit9 { .. } | Op::Join { .. } | Op::ForCount { .. } | Op::ForSum { .. } | Op::ForPush { .. } | Op::ForFind { .. }) };
     for _ in 0..nops {
         let filled: Vec<usize> = (0..nslots).filter(|&s| m.slots[s].is_some()).collect();
         let any = |g: &mut Gen| g.r.below(nslots as u64) as usize;
@@ -322,7 +322,8 @@ pub fn generate_c15(run_seed: u64, thorough: bool, faults: bool) -> ListDesc {
             g.next_val += 1;
             Op::InnerPush { inner: g.r.below(n_inner as u64) as usize, v: 100 + g.next_val }
         } else if filled.is_empty() || g.r.chance(1, 12) {
-            match g.r.below(4) {
+            match g.r.below(5) {
+                4 => Op::BranchLit { dst: any(&mut g), c: g.r.chance(1, 2), vals: (0..2).map(|_| fresh(&mut g)).collect(), shape: g.r.below(2) as u8 },
                 0 => Op::New { dst: any(&mut g) },
                 1 => {
                     let n = *g.r.pick(&[0usize, 1, 2, 3, 4, 5, 8, 9, 15, 16, 17, 31, 32, 33]);
@@ -486,6 +487,7 @@ pub fn op_label(op: &Op, origin: &Origin) -> String {
         Op::FromVec { .. } => "from_vec",
         Op::Lit3 { .. } => "literal",
         Op::Lit9 { .. } => "literal9",
+        Op::BranchLit { .. } => "branch-literal",
         Op::CloneH { .. } => "clone",
         Op::DropH { .. } => "drop",
         Op::Push { .. } => "push",
@@ -908,7 +910,7 @@ pub fn shrink(d: &ListDesc) -> Vec<ListDesc> {
     for t in 0..d.threads.len() {
         for k in 0..d.threads[t].ops.len() {
             let (op, origin) = &d.threads[t].ops[k];
-            if *origin == Origin::Script && !matches!(op, Op::Join { .. } | Op::ForCount { .. } | Op::ForSum { .. } | Op::ForPush { .. } | Op::ForFind { .. } | Op::Concat { plus: true, .. } | Op::Eq { ne: true, .. } | Op::Lit3 { .. } | Op::Lit9 { .. }) {
+            if *origin == Origin::Script && !matches!(op, Op::Join { .. } | Op::ForCount { .. } | Op::ForSum { .. } | Op::ForPush { .. } | Op::ForFind { .. } | Op::Concat { plus: true, .. } | Op::Eq { ne: true, .. } | Op::Lit3 { .. } | Op::Lit9 { .. } | Op::BranchLit { .. }) {
                 let mut c = d.clone();
                 c.threads[t].ops[k].1 = Origin::Rust;
                 out.push(c);
